@@ -200,21 +200,17 @@ class Mesh:
 
     def boundary_edges(self) -> ndarray:
         """Return an array of boundary edge indices."""
+        refdom = self.elem.refdom
+        # which local edges belong to which local facets
+        facet_edges = np.array([[set(edge) <= set(facet)
+                                 for edge in refdom.edges]
+                                for facet in refdom.facets], dtype=np.int32)
         facets = self.boundary_facets()
-        boundary_edges = np.sort(np.hstack(
-            tuple([np.vstack((self.facets[itr, facets],
-                              self.facets[(itr + 1) % self.facets.shape[0],
-                              facets]))
-                   for itr in range(self.facets.shape[0])])).T, axis=1)
-        edge_candidates = np.unique(self.t2e[:, self.f2t[0, facets]])
-        A = self.edges[:, edge_candidates].T
-        B = boundary_edges
-        dims = A.max(0) + 1
-        ix = np.where(np.isin(
-            np.ravel_multi_index(A.T, dims),  # type: ignore
-            np.ravel_multi_index(B.T, dims),  # type: ignore
-        ))[0]
-        return edge_candidates[ix]
+        cells = self.f2t[0, facets]
+        # find the local edges of the cells that belong to a boundary facet
+        local_facets = (self.t2f[:, cells] == facets).astype(np.int32)
+        local_edges = (facet_edges.T @ local_facets) > 0
+        return np.unique(self.t2e[:, cells][local_edges])
 
     def with_defaults(self):
         """Return a copy with the default tags ('left', 'right', ...)."""
